@@ -146,7 +146,10 @@ class World:
         if kind == "get":
             return Prepared(getattr, [target, op["a"]], {}, target, op)
         if kind == "deepcopy":
-            return Prepared(copy.deepcopy, [target], {}, target, op)
+            obj = target
+            for lvl in range(int(op.get("wrap", 0))):  # instance nested in plain containers to depth `wrap`
+                obj = [obj] if lvl % 2 == 0 else {"k": obj}
+            return Prepared(copy.deepcopy, [obj], {}, target, op)
         if kind == "mutate":
             v = self.build(op.get("v"))
             how = op["how"]
@@ -210,7 +213,10 @@ class World:
 
 
 def _raw(inst, name, default=None):
-    return inst.__dict__.get(name, default)
+    v = inst.__dict__.get(name, default)
+    if getattr(type(v), "__name__", "") == "_MissingType":
+        return default  # a sentinel class stored as a value (only seeded defects do that): treat as missing
+    return v
 
 
 def _seq_items(c):
@@ -245,7 +251,7 @@ def value_to_ref(x):
         if nm == "Leaf":
             return ["leaf", kw]
         if nm == "KItem":
-            return ["kitem", kw]
+            return ["kitem", kw] if "k" in kw else None  # (an item that lost its key cannot be rebuilt)
     if isinstance(x, list):
         return ["list", [value_to_ref(e) for e in x]]
     if isinstance(x, dict):
